@@ -86,7 +86,14 @@ impl Property for C36 {
             let ctx = Arc::new(sdk::make_context(&pki_settings()));
             c2pa::verif::set_clock(Some((wa + wb) / 2));
             let signed = sdk::guarded(|| -> Result<Vec<u8>, String> {
-                let mut b = Builder::from_shared_context(&ctx).with_definition(sdk::simple_definition("c36")).map_err(|e| err_kind(&e))?;
+                // every third case signs a version-1 claim (time-stamp over the claim in sigTst
+                // instead of over the signature in sigTst2)
+                let mut def = sdk::simple_definition("c36");
+                if (rc.idx + c as u64) % 3 == 2 {
+                    def["claim_version"] = json!(1);
+                    def["assertions"] = json!([{ "label": "c2pa.actions", "data": { "actions": [ { "action": "c2pa.created" } ] } }]);
+                }
+                let mut b = Builder::from_shared_context(&ctx).with_definition(def).map_err(|e| err_kind(&e))?;
                 let mut d = std::io::Cursor::new(Vec::new());
                 b.sign(&signer, fmt.mime(), &mut std::io::Cursor::new(asset.clone()), &mut d).map_err(|e| err_kind(&e))?;
                 Ok(d.into_inner())
